@@ -20,3 +20,9 @@ Fixpoint argmax_pos (vals : list Q) : nat :=
       end
   end.
 Definition drop_at {A} (i : nat) (l : list A) : list A := firstn i l ++ skipn (S i) l.
+
+(* np.diagonal(cov) of one design's covariance matrix (rows), and np.sum of a vector *)
+Fixpoint mat_diag_from (k : nat) (M : list (list Q)) : list Q :=
+  match M with [] => [] | r :: M' => nth k r 0 :: mat_diag_from (S k) M' end.
+Definition mat_diag (M : list (list Q)) : list Q := mat_diag_from 0 M.
+Fixpoint vsum_q (v : list Q) : Q := match v with [] => 0 | x :: v' => x + vsum_q v' end.
